@@ -42,13 +42,7 @@ def hexChar (n : Nat) : Char := if n < 10 then Char.ofNat (48 + n) else Char.ofN
 def showHex (n : Name) : String :=
   if n.isEmpty then "-" else String.ofList (n.flatMap (fun b => [hexChar (b / 16), hexChar (b % 16)]))
 
-/-- ncmpio_Bernstein_hash, transcribed: `unsigned int hash = len; hash = hash + (hash<<6) + (unsigned int)str[i];`
-    (char is signed on this platform: bytes ≥ 0x80 are sign-extended); `(hash ^ hash>>10 ^ hash>>20) & (hsize-1)` -/
-def bernstein (size : Nat) (nm : Name) : Nat :=
-  let hash : UInt32 := nm.foldl
-    (fun hsh c => hsh + (hsh <<< 6) + (if c ≥ 128 then UInt32.ofNat (c + 0xFFFFFF00) else UInt32.ofNat c))
-    (UInt32.ofNat nm.length)
-  ((hash ^^^ (hash >>> 10) ^^^ (hash >>> 20)) &&& (UInt32.ofNat size - 1)).toNat
+-- ncmpio_Bernstein_hash: `PnVerif.Meta.bernstein` (Model/MetaTab.lean; index bound proved in Props/C07.lean)
 
 structure St where
   nfcT : List (Name × Name) := []
